@@ -26,6 +26,7 @@ meta = dict(
                               "demonstration exits non-zero with the patch, 0 without (lib/seedconfirm.sh)",
                               "lib/seedrun.sh %s seeded/%s-%s/patch.diff  (check run against the patched scratch tree)" % (P, P, KEEP)],
     caught_by=caught, strengthening=strength,
+    base_commit=os.environ.get("SEEDBASE", ""), base_note="written against /repo at base_commit; if the patch no longer applies to HEAD: SEEDRUN_BASE=<base_commit> bash lib/seedrun.sh ...",
     demo_note="the demo's go.mod replaces grol.io/grol with a scratch worktree path (/tmp/seed%s-%s); copy /repo/go.sum next to it" % (TAG, P),
 )
 json.dump(meta, open(os.path.join(dst, "meta.json"), "w"), indent=1)
